@@ -5,7 +5,7 @@ from __future__ import annotations
 import ast
 
 from ..cfg import CFG, typestate, witness, calls_at
-from ..loader import AnalysisError, Repo, body_nodoc, dotted, norm, walk_no_nested, enclosing, strip_cast
+from ..loader import AnalysisError, Repo, body_nodoc, dotted, norm, qualname, walk_no_nested, enclosing, strip_cast
 from ..report import Report
 
 LEVEL = "other"
@@ -36,6 +36,7 @@ def run(repo: Repo, rep: Report, tier: str) -> None:
     fn = repo.func("transport", "AssociationSocket.recv")
     fq = "transport.AssociationSocket.recv"
     n_param = fn.args.args[1].arg
+    check_tls_portable(repo, rep)
     _check_recv(repo, rep, tr, fn, fq, n_param)
 
     # ---- header / body ---------------------------------------------------------
@@ -382,6 +383,26 @@ def _slice_base(e: ast.AST, want_hi: bool = False):
     return (norm(e), lo, hi) if want_hi else (norm(e), lo)
 
 
+def check_tls_portable(repo, rep, rule: str = "tls-portable") -> int:
+    """The association's socket is a plain socket or - after wrap_socket() - an ssl.SSLSocket, and the same
+    code drives both. SSLSocket.recv / recv_into / send / sendall raise ValueError for a non-zero `flags`
+    argument (and ValueError is not the OSError the callers turn into 'connection closed'): a flags argument
+    works on the plain socket of the tests and kills the provider thread on a TLS connection."""
+    rep.rule(rule, "socket reads and writes on the association socket pass no flags argument (ssl.SSLSocket refuses them with ValueError)")
+    tr = repo.mod("transport")
+    n = 0
+    for c in ast.walk(tr.tree):
+        if not (isinstance(c, ast.Call) and isinstance(c.func, ast.Attribute) and c.func.attr in ("recv", "recv_into", "send", "sendall") and norm(c.func.value) in ("self.socket", "sock", "self.socket.socket")):
+            continue
+        n += 1
+        limit = 2 if c.func.attr == "recv_into" else 1
+        flags = list(c.args[limit:]) + [k.value for k in c.keywords if k.arg == "flags"]
+        nonzero = [f for f in flags if not (isinstance(f, ast.Constant) and f.value == 0)]
+        rep.check(not nonzero, rule, f"transport.{qualname(c)}", enclosing(c, (ast.stmt,)) or c, f"`{norm(c)[:60]}` passes flags ({norm(nonzero[0]) if nonzero else ''}) to a socket that is an ssl.SSLSocket on TLS connections: SSLSocket raises ValueError('non-zero flags not allowed'), which is not caught as a transport error - the provider thread takes its internal-error exit (an A-ABORT written without notification, no connection-close event) or dies", mod=tr, node=c)
+    rep.floor("socket reads / writes in transport.py", n, 2)
+    return n
+
+
 def _check_recv(repo, rep, tr, fn, fq, n_param):
     """AssociationSocket.recv(n): (1) every socket read is bounded by what is still missing, (2) what is
     returned is exactly what was received (recv_model: symbolic length bookkeeping, any loop shape),
@@ -398,7 +419,23 @@ def _check_recv(repo, rep, tr, fn, fq, n_param):
         cnt = t.left.id if ok else "nr_read"
         remaining = {f"{n_param} - {cnt}"}
         reads = [c for c in ast.walk(w) if isinstance(c, ast.Call) and isinstance(c.func, ast.Attribute) and c.func.attr in ("recv", "recv_into") and norm(c.func.value) in ("self.socket", "sock")]
-        rep.check(len(reads) == 1, "recv-exact", fq, f"{len(reads)} socket reads in the loop at line {w.lineno}", "one socket read per iteration (the count is re-tested before each)", mod=tr, node=w)
+        # one socket read on every way through one iteration (two sites in the two branches of an if are one read)
+        from ..cfg import path_summaries as _paths
+        per_path = set()
+        for ps_ in _paths(fn, body=w.body, may_raise=lambda n_: False):
+            if ps_.raised:
+                continue
+            k_ = sum(1 for st_ in ps_.stmts for c_ in ast.walk(st_) if any(c_ is r_ for r_ in reads))
+            ends_early = any(isinstance(st_, (ast.Return, ast.Break, ast.Continue)) for st_ in ps_.stmts)
+            if not (ends_early and k_ == 0):
+                per_path.add(k_)
+        rep.check(per_path <= {1} and reads, "recv-exact", fq, f"socket reads per way through the loop at line {w.lineno}: {sorted(per_path)}", "one socket read per iteration (the count is re-tested before each)", mod=tr, node=w)
+        # names that hold the remaining count
+        for s_ in ast.walk(w):
+            if isinstance(s_, ast.Assign) and isinstance(s_.targets[0], ast.Name) and norm(s_.value) in remaining:
+                others = [o_ for o_ in ast.walk(fn) if isinstance(o_, (ast.Assign, ast.AugAssign)) and o_ is not s_ and any(norm(t_) == s_.targets[0].id for t_ in (o_.targets if isinstance(o_, ast.Assign) else [o_.target]))]
+                if not others:
+                    remaining = remaining | {s_.targets[0].id}
         for rd in reads:
             n_reads += 1
             if rd.func.attr == "recv_into":
